@@ -1,13 +1,13 @@
 #!/usr/bin/env python3
 """tools/run_refactors.py [pattern]: run every claimed check on each behaviour-preserving refactoring under refactors/
-(equivalent mutants). Any check that fires is a FALSE ALARM of the machinery."""
+(equivalent mutants). Any check that fires is a FALSE ALARM of the machinery.  IDS="C03 C09" restricts the checks, J=<n> the parallelism."""
 import os, re, subprocess, sys, glob
 from concurrent.futures import ThreadPoolExecutor
 V = os.path.dirname(os.path.dirname(os.path.abspath(__file__)))
 pat = sys.argv[1] if len(sys.argv) > 1 else "*"
 patches = sorted(glob.glob(os.path.join(V, "refactors", pat + ".diff")))
 def one(p):
-    r = subprocess.run([sys.executable, os.path.join(V, "tools", "try_patch.py"), p], stdout=subprocess.PIPE, stderr=subprocess.STDOUT, text=True)
+    r = subprocess.run([sys.executable, os.path.join(V, "tools", "try_patch.py"), p] + os.environ.get("IDS", "").split(), stdout=subprocess.PIPE, stderr=subprocess.STDOUT, text=True)
     fired = re.findall(r"^fired: (.*)$", r.stdout, re.M)
     rules = re.findall(r"rule=(\S+) key=(\S+)", r.stdout)
     na = "PATCH DOES NOT APPLY" in r.stdout
